@@ -141,6 +141,21 @@ func oneFile(dir string, ver, klen int, vlens []int, tm, base int64, seed int, s
 		fail("open writer", "OpenWriter: %v", err)
 		return
 	}
+	// a reader opened before anything was written - what the log keeps for its head segment -
+	// must read every record from the position the writer reports, as soon as it is written
+	// (skipped, not judged, if such a reader cannot be had or takes the file for the other version)
+	live, lerr := message.OpenReader(path, base)
+	if lerr != nil || live.Version() != mver(ver) {
+		if lerr == nil {
+			_ = live.Close()
+		}
+		live = nil
+	}
+	defer func() {
+		if live != nil {
+			_ = live.Close()
+		}
+	}()
 	want := append([]byte(nil), refcodec.LogHeader(ver)...)
 	type rec struct {
 		m   message.Message
@@ -176,6 +191,16 @@ func oneFile(dir string, ver, klen int, vlens []int, tm, base int64, seed int, s
 			fail("size", "Size(klen=%d vlen=%d v%d) = %d, documented layout %d, file grew %d", klen, vl, ver, sz, len(enc), w.Size()-before)
 		}
 		recs = append(recs, rec{m, pos})
+		if live != nil {
+			lm, lnext, err := live.Read(pos)
+			switch {
+			case err != nil:
+				fail("live read", "reader opened before the writes: Read(record %d klen=%d vlen=%d v%d) right after its Write: %v", i, klen, vl, ver, err)
+			case lm.Offset != m.Offset || lm.Time.UnixMicro() != tm || !bytes.Equal(lm.Key, m.Key) || !bytes.Equal(lm.Value, m.Value) || lnext != w.Size():
+				fail("live roundtrip", "reader opened before the writes: record %d (klen=%d vlen=%d v%d) read back as off=%d t=%d klen=%d vlen=%d next=%d (file size %d)", i, klen, vl, ver, lm.Offset, lm.Time.UnixMicro(), len(lm.Key), len(lm.Value), lnext, w.Size())
+			}
+			atomic.AddInt64(&st.Cases, 1)
+		}
 	}
 	if err := w.SyncAndClose(); err != nil {
 		fail("close", "SyncAndClose: %v", err)
